@@ -1,0 +1,12 @@
+// Copyright 2021-present The Atlas Authors. All rights reserved.
+// This source code is licensed under the Apache 2.0 license found
+// in the LICENSE file in the root directory of this source tree.
+
+//go:build !verif
+
+// Package verifhook provides named observation points for external
+// verification harnesses. Without the "verif" build tag it is a no-op.
+package verifhook
+
+// At marks a named point in the execution. No-op unless built with the "verif" tag.
+func At(string, ...any) {}
